@@ -13,6 +13,7 @@ from . import fold, peval, reference as ref
 from .fold import TOP, mk_enum, to_py
 from .rules_tables import anchor_fn, where_fn, VERSION, ECL, MASK, MTYPE
 
+QUICK_PLACE_VERSIONS = list(range(1, 11)) + [14, 21, 27]  # all alignment-grid shapes up to 4x4, version info, both count classes
 QUICK_MASK_VERSIONS = list(range(1, 11))  # sizes 21..57: every residue of the size modulo 2, 3, 6 and 12 occurs
 _G = {}
 
@@ -20,6 +21,8 @@ _G = {}
 def _versions(ctx, what):
     if what == "masks" and ctx.tier != "thorough":
         return QUICK_MASK_VERSIONS
+    if what == "place" and ctx.tier != "thorough":
+        return QUICK_PLACE_VERSIONS
     return list(range(1, 41))
 
 
@@ -67,6 +70,16 @@ def _job(v):
             # every cell the writer stored into, including stores of an unchanged value
             res[(l, mk)] = {"status": ("ret", None), "after": g2["cells"], "diff": diff}
         out["format"] = res
+    if "place" in want and v in want["place"]:
+        q2 = _qr_with_clone(pe, qr)
+        pe.calls_seen = {}
+        cq = ("adt", "compact::CompactQR", 0, "CompactQR", (fold.mk_int("usize", 0), ("symvec",)))
+        r2 = pe.run("placement::place_on_matrix_data", [("cell", 0), ("ref", ("const", cq))], cells=[q2])
+        if r2.kind != "ret":
+            out["place"] = {"status": (r2.kind, r2.why)}
+        else:
+            size, cells, d, n = peval.matrix_sym(pe, r2.cells[0])
+            out["place"] = {"status": ("ret", None), "after": cells, "default": d, "calls": sorted(pe.calls_seen)}
     if "masks" in want and v in want["masks"]:
         res = {}
         for mk in ref.MASKS:
@@ -126,6 +139,8 @@ def geometry(ctx, f, need):
         want["format"] = _format_combos_all if ctx.tier == "thorough" else _format_combos_quick
     if "masks" in need:
         want["masks"] = set(_versions(ctx, "masks"))
+    if "place" in need:
+        want["place"] = set(_versions(ctx, "place"))
     res = _run_jobs(f, list(range(1, 41)), want)
     cache[key] = res
     return res
@@ -447,3 +462,69 @@ def _direct_module_reads(f, paths):
                 if uses(s["p"]):
                     out.append("%s:%s (store)" % (p, s.get("line")))
     return out
+
+
+# ---------------------------------------------------------------------------------------------------------------------
+# C01.R5: codeword placement with symbolic payload bits
+# ---------------------------------------------------------------------------------------------------------------------
+
+def c01_r5(ctx, f, rid="C01.R5"):
+    ctx.rule(rid, "placement by partial evaluation with symbolic codeword bits: the i-th data module of the ISO zig-zag order "
+                  "holds bit i (most significant first) of the codeword sequence; nothing else is written")
+    fn = anchor_fn(ctx, rid, f, "placement::place_on_matrix_data", ["&mut qr::QRCode", "&compact::CompactQR"], "()")
+    if not fn:
+        return
+    dec = _decoder(ctx, rid, f)
+    if dec is None:
+        return
+    res = geometry(ctx, f, {"blank", "place"})
+    versions = _versions(ctx, "place")
+    groups = _Groups()
+    runs = 0
+    for job in res:
+        v = job["v"]
+        if v not in versions:
+            continue
+        name = "V%02d" % v
+        if job["blank_status"][0] != "ret" or "place" not in job:
+            ctx.abstain(rid, "blank symbol not available for %s" % name, where_fn(fn))
+            continue
+        r = job["place"]
+        if r["status"][0] != "ret":
+            if r["status"][0] == "diverge":
+                groups.add("diverges", name, None, r["status"][1])
+            else:
+                ctx.abstain(rid, "placement is not foldable for %s: %s" % (name, r["status"][1]), where_fn(fn))
+            continue
+        runs += 1
+        g = job["blank"]
+        n = g["size"]
+        after = r["after"]
+        order = ref.placement_order(v)
+        pos_of = {p: i for i, p in enumerate(order)}
+        wrong = []
+        for rr in range(n):
+            for cc in range(n):
+                i = rr * n + cc
+                b0 = g["cells"].get(i, g["default"])
+                b1, tag = after.get(i, (b0, None)) if i in after else (b0, None)
+                if (rr, cc) in pos_of:
+                    k = pos_of[(rr, cc)]
+                    exp = (k // 8, 7 - k % 8, False)
+                    if tag != exp or dec(b1)[0] != ref.DATA:
+                        wrong.append(((rr, cc), "bit %d = byte %d bit %d" % (k, exp[0], exp[1]), tag if tag is not None else dec(b1)))
+                else:
+                    if tag is not None or b1 != b0:
+                        wrong.append(((rr, cc), dec(b0), tag if tag is not None else dec(b1)))
+        outside = [i for i in after if i >= n * n]
+        if not wrong and not outside:
+            ctx.ok(rid, "%s: %d data modules hold bits 0..%d in ISO order, %d function modules untouched" % (
+                name, len(order), len(order) - 1, n * n - len(order)))
+        else:
+            w = wrong[0] if wrong else None
+            key = "order/%s" % _relp(w[0], n) if w else "store_outside_the_square"
+            groups.add(key, name, [(x[0], x[1]) for x in wrong[:4]], [(x[0], x[2]) for x in wrong[:4]] or outside[:4])
+    groups.emit(ctx, rid, "placement::place_on_matrix_data", where_fn(fn), fn.path,
+                "codeword bits are not placed in the ISO zig-zag order / bit order, or a function module is written "
+                "(first offending modules of the first configuration shown; tags are (byte, bit, negated))")
+    ctx.floor(rid, "versions evaluated", runs, len(versions))
